@@ -43,4 +43,8 @@ H_GET(H_chainedGetVarint32, varintChainedGetVarint32, uint8_t, uint32_t, CH_GN, 
 H_GET(H_chained_getVarint32, w_chained_getVarint32, uint8_t, uint32_t, CH_GN, spec_chained_byte, CH_GOK32ALL)
 H_PUT(H_chained_putVarint32, w_chained_putVarint32, varintWidth, uint8_t, uint32_t, spec_chained_len, spec_chained_byte, 1, 5, DOM_ANY)
 H_REL(H_chainedRoundTrip, w_chainedRoundTrip, uint64_t, DOM_ANY)
+
+W_REL2(w_chainedMono, uint64_t, DOM_ANY, { return a > b || varintChainedVarintLen(a) <= varintChainedVarintLen(b); })
+H_REL2(H_chainedMono, w_chainedMono, uint64_t, DOM_ANY)
+
 RP_MAIN()
